@@ -88,6 +88,29 @@ CLAIMED['C15'] = dict(
          'statement; scipy.stats.uniform replaced by its closed form in the '
          'symbolic run.')
 
+CLAIMED['C10'] = dict(
+    technique='bounded symbolic execution of the real run() loop (unrolled '
+              'K iterations) with symbolic limits, symbolic clock and a '
+              'call-logging likelihood stub; z3 decides every obligation',
+    text='For every feasible path of run() within the unrolling from the '
+         'empty sampler and from arbitrary invariant states, the solver '
+         'shows the call counter, the one-batch-per-step rule, the budget '
+         'and timeout guards, the unit-cube support of evaluated points and '
+         'the exact success predicate; limits are symbolic, so n_like_max '
+         'from 0 upward and all timeouts are covered at once.',
+    design_ref='3 (C10)')
+CLAIMED['C12'] = dict(
+    technique='bounded symbolic execution of the real run() from explored / '
+              'ending-exploration states and of the discard_exploration '
+              'setter; term identity of all statistics after a double '
+              'toggle',
+    text='The solver shows on every path that exploration never resumes, '
+         'bounds are frozen, stored arrays only grow by appending, the '
+         'end-of-exploration cut is consistent, and that switching discard '
+         'on shows exactly the post-exploration suffix while switching it '
+         'off again yields term-identical (hence bit-identical) statistics.',
+    design_ref='3 (C12)')
+
 NOT_APPLICABLE = {
     'C04': 'statement about the distribution of whole-program outputs over '
            'seed ensembles; no bounded symbolic input space decides it '
